@@ -379,6 +379,15 @@ class Normaliser:
                     self.note("N7-" + nm)
                     i = j + 1
                     continue
+            # the macro-expanded form of panic!/unreachable!:  ::core::panicking::panic("..")  (items extracted from the expansion)
+            if t.text == "::" and i + 6 < n and [x.text for x in toks[i + 1:i + 7]] == ["core", "::", "panicking", "::", "panic", "("]:
+                j = match_close(toks, i + 6)
+                new = mk("vpanic ( )")
+                new[0].ws = t.ws
+                out += new
+                self.note("N7-panic-expanded")
+                i = j + 1
+                continue
             out.append(t)
             i += 1
         return out
